@@ -491,9 +491,17 @@ def history_chunk(job):
     fn = ps.net_io_counters if name == "net" else ps.disk_io_counters
     perkw = "pernic" if name == "net" else "perdisk"
     out = []
-    for seq in seqs:
+    other = ps.disk_io_counters if name == "net" else ps.net_io_counters
+    okw, oname = ("perdisk", "disk") if name == "net" else ("pernic", "net")
+    for si, seq in enumerate(seqs):
         fn.cache_clear()
+        other.cache_clear()
         ad.raw = {"net": {}, "disk": {}}
+        # every other history is interleaved with calls of the sister function, which watches devices
+        # of its own: the two keep separate books
+        mixed = si % 2 == 1
+        if mixed:
+            ad.raw[oname] = {"zz%d" % j: [3 + j] * max(1, ad.nf) for j in range(2)}
         ad.sync()
         evs = history_events(name, seq)
         for e in evs:
@@ -501,6 +509,8 @@ def history_chunk(job):
                 ad.step(e)
                 continue
             try:
+                if mixed:
+                    other(**{okw: True, "nowrap": True})
                 got = fn(**{perkw: True, "nowrap": True})
                 e["res"] = {k: unscale(name, tuple(v), 1) for k, v in got.items()}
             except BaseException as ex:  # noqa: BLE001
